@@ -17,16 +17,17 @@ CONSTANT Aspects                 \* which observations this validation gates on 
 VARIABLE l,                      \* next line of the trace
          lay,                    \* per policy: the memory layout recorded after the last update (C04)
          nodes,                  \* per policy: spec class each node of the harness's C++ chain stands for
-         soff                    \* per policy: static offsets compiled into the program, per method (C12)
-tvars == <<vars, l, lay, nodes, soff>>
+         soff,                   \* per policy: static offsets compiled into the program, per method (C12)
+         enc                     \* per policy: declared sizes of the last emitted dispatch data (C13)
+tvars == <<vars, l, lay, nodes, soff, enc>>
 
 Tr == ndJsonDeserialize(IOEnv.TRACE)
 Ev == Tr[l]
 IsEvent(k) == l <= Len(Tr) /\ Tr[l].e = k /\ l' = l + 1
-KeepLay == UNCHANGED <<lay, nodes, soff>>
+KeepLay == UNCHANGED <<lay, nodes, soff, enc>>
 
 NoLayout == [size |-> 0, vptr |-> <<>>, ms |-> <<>>, dt |-> <<>>]
-TInit == Init /\ l = 1 /\ lay = [p \in Policy |-> NoLayout] /\ nodes = [p \in Policy |-> <<0, 0, 0, 0>>] /\ soff = [p \in Policy |-> <<>>]
+TInit == Init /\ l = 1 /\ lay = [p \in Policy |-> NoLayout] /\ nodes = [p \in Policy |-> <<0, 0, 0, 0>>] /\ soff = [p \in Policy |-> <<>>] /\ enc = [p \in Policy |-> [H |-> 0, S |-> 0, E |-> 0, D |-> 0, T |-> 0]]
 
 (* several executions are concatenated in one file, separated by reset *)
 TReset ==
@@ -36,7 +37,7 @@ TReset ==
     /\ defs' = [p \in Policy |-> <<>>] /\ inst' = [p \in Policy |-> NotInstalled]
     /\ fresh' = [p \in Policy |-> FALSE] /\ handler' = [p \in Policy |-> "throw"]
     /\ vps' = <<>> /\ dead' = FALSE /\ obs' = [k |-> "init"]
-    /\ lay' = [p \in Policy |-> NoLayout] /\ nodes' = [p \in Policy |-> <<0, 0, 0, 0>>] /\ soff' = [p \in Policy |-> <<>>]
+    /\ lay' = [p \in Policy |-> NoLayout] /\ nodes' = [p \in Policy |-> <<0, 0, 0, 0>>] /\ soff' = [p \in Policy |-> <<>>] /\ UNCHANGED enc
 
 TClass    == IsEvent("class")    /\ KeepLay /\ RegisterClass(Ev.p, [r |-> Ev.r, c |-> Ev.c, bases |-> Ev.bases, abs |-> Ev.abs])
 TUnclass  == IsEvent("unclass")  /\ KeepLay /\ UnregisterClass(Ev.p, Ev.r)
@@ -50,6 +51,7 @@ TUpdate ==
     /\ IsEvent("update")
     /\ lay' = [lay EXCEPT ![Ev.p] = NoLayout] /\ UNCHANGED nodes
     /\ soff' = [soff EXCEPT ![Ev.p] = <<>>]          \* whatever was loaded is stale after an update
+    /\ UNCHANGED enc
     /\ \/ Ev.res = "ok"       /\ IF "report" \in Aspects
                                   THEN UpdateOK(Ev.p, Ev.rep) /\ Ev.rep.cells = Ev.rep.built
                                   ELSE UpdateOKAnyReport(Ev.p)
@@ -156,7 +158,7 @@ TOffsets ==
     /\ UNCHANGED vars
 (* the program is "compiled" with these offsets for method m *)
 TSLoad ==
-    /\ IsEvent("sload") /\ UNCHANGED <<lay, nodes>>
+    /\ IsEvent("sload") /\ UNCHANGED <<lay, nodes, enc>>
     /\ ~dead /\ fresh[Ev.p] /\ inst[Ev.p].ok /\ Ev.m \in DOMAIN inst[Ev.p].mvp
     /\ Ev.exact \/ Ev.chk              \* other offsets are only tried under a checked policy
     /\ soff' = [soff EXCEPT ![Ev.p] = [x \in DOMAIN soff[Ev.p] \cup {Ev.m} |->
@@ -168,10 +170,43 @@ TSSkip ==
     /\ ~HasStatic(Ev.p, Ev.m)
     /\ UNCHANGED vars
 
+(* ---- encoded dispatch data (C13) ---- *)
+(* what the real generator emitted for the last update: array sizes as declared (H headroom, S slots, *)
+(* E encoded v-table words, D decoded v-table cells, T dispatch-table cells) and the number of          *)
+(* initialisers of each array.  Compilers accept it only if the sizes are non-negative and no array     *)
+(* has more initialisers than elements.                                                              *)
+TEncoded ==
+    /\ IsEvent("encoded") /\ UNCHANGED <<nodes, soff, lay>>
+    /\ ~dead /\ fresh[Ev.p] /\ inst[Ev.p].ok
+    /\ ~Ev.ill
+    /\ Ev.H >= 0 /\ Ev.S >= 0 /\ Ev.E >= 0 /\ Ev.D >= 0 /\ Ev.T >= 0
+    /\ Ev.ns <= Ev.S /\ Ev.nv <= Ev.E /\ Ev.nt <= Ev.T
+    /\ enc' = [enc EXCEPT ![Ev.p] = [H |-> Ev.H, S |-> Ev.S, E |-> Ev.E, D |-> Ev.D, T |-> Ev.T]]
+    /\ UNCHANGED vars
+(* the real decoder ran on that data in a process where update had not run: every 16-bit fetch lies in  *)
+(* the encoded v-tables, every v-table store in the decoded v-tables, every dispatch-table store in the   *)
+(* dispatch tables (byte offsets from the start of the union / of dtbls), and no store overwrites a word  *)
+(* that is fetched later.  From then on calls are served by the decoded tables: the events that follow     *)
+(* are validated like after update.                                                                  *)
+TDecoded ==
+    /\ IsEvent("decoded") /\ UNCHANGED <<nodes, soff>>
+    /\ ~dead /\ fresh[Ev.p] /\ inst[Ev.p].ok
+    /\ Ev.res = "ok"
+    /\ LET z == enc[Ev.p]
+           fs == {i \in DOMAIN Ev.ev : Ev.ev[i][1] = "f"}
+           ss == {i \in DOMAIN Ev.ev : Ev.ev[i][1] = "s"}
+           ts == {i \in DOMAIN Ev.ev : Ev.ev[i][1] = "t"} IN
+       /\ \A i \in fs : Ev.ev[i][2] >= 2 * (z.H + z.S) /\ Ev.ev[i][2] + 2 <= 2 * (z.H + z.S + z.E)
+       /\ \A i \in ss : Ev.ev[i][2] >= 0 /\ Ev.ev[i][2] + 8 <= 8 * z.D
+       /\ \A i \in ts : Ev.ev[i][2] >= 0 /\ Ev.ev[i][2] + 8 <= 8 * z.T
+       /\ \A i \in ss : \A j \in fs : j > i => ~(Ev.ev[j][2] + 2 > Ev.ev[i][2] /\ Ev.ev[j][2] < Ev.ev[i][2] + 8)
+    /\ lay' = [lay EXCEPT ![Ev.p] = NoLayout] /\ UNCHANGED enc
+    /\ UNCHANGED vars
+
 (* ---- virtual_ptr handles (C09, C15) ---- *)
 NodeClass(p, k) == nodes[p][k + 1]
 TNode ==
-    /\ IsEvent("node") /\ UNCHANGED <<lay, soff>>
+    /\ IsEvent("node") /\ UNCHANGED <<lay, soff, enc>>
     /\ Ev.ok
     /\ nodes' = [nodes EXCEPT ![Ev.p][Ev.k + 1] = Ev.c]
     /\ UNCHANGED vars
@@ -253,7 +288,7 @@ TLayout ==
     /\ IsEvent("layout")
     /\ ~dead /\ fresh[Ev.p] /\ inst[Ev.p].ok
     /\ LayoutOK(Ev.p, Ev)
-    /\ lay' = [lay EXCEPT ![Ev.p] = [size |-> Ev.size, vptr |-> Ev.vptr, ms |-> Ev.ms, dt |-> Ev.dt]] /\ UNCHANGED <<nodes, soff>>
+    /\ lay' = [lay EXCEPT ![Ev.p] = [size |-> Ev.size, vptr |-> Ev.vptr, ms |-> Ev.ms, dt |-> Ev.dt]] /\ UNCHANGED <<nodes, soff, enc>>
     /\ obs' = [k |-> "layout"]
     /\ UNCHANGED <<classes, methods, defs, inst, fresh, handler, vps, dead>>
 
@@ -291,7 +326,7 @@ TNext ==
 
 TNextStep ==
     \/ TReset \/ TClass \/ TUnclass \/ TMethod \/ TUnmethod \/ TDef \/ TUndef \/ THandler
-    \/ TUpdate \/ TTable \/ TCTable \/ TResolve \/ TCall \/ TDied \/ TNext \/ TEnd \/ TLayout \/ TReads \/ TSkip \/ TOffsets \/ TSLoad \/ TSSkip \/ TNode \/ TVptr \/ TVDerive \/ TVDrop \/ TVGet \/ TVCall \/ TVSkip
+    \/ TUpdate \/ TTable \/ TCTable \/ TResolve \/ TCall \/ TDied \/ TNext \/ TEnd \/ TLayout \/ TReads \/ TSkip \/ TEncoded \/ TDecoded \/ TOffsets \/ TSLoad \/ TSSkip \/ TNode \/ TVptr \/ TVDerive \/ TVDrop \/ TVGet \/ TVCall \/ TVSkip
 
 TSpec == TInit /\ [][TNextStep]_tvars
 
